@@ -95,9 +95,10 @@ def run(cx):
         cx.ob('GUARD', 'Mesh::indices_in_tol', ok, 'index i is reported exactly when project_with_tol(points[i], max_dist, max_angle, transform) is Some', where=b.file)
     # the two consumers of the mesh projection that add their own geometry on top of it (rules shared with C16 / C20)
     from rules.C16 import deviation_fallback_rules
-    from rules.C20 import uv_with_tol_rule
+    from rules.C20 import uv_with_tol_rule, uv_lookup_rules
     deviation_fallback_rules(cx)
     uv_with_tol_rule(cx)
+    uv_lookup_rules(cx)
     E.enc(cx, M, ('shape', 'is_solid', 'uv'), constructors=[f'{M}::new', f'{M}::new_take_trimesh', f'{M}::new_with_uv', f'{M}::new_with_options'])
 
 
